@@ -60,6 +60,7 @@ struct RCfg {
     int h1, h2;
     std::vector<int> params;    // meaning depends on the family
     int max_same_hash;          // an insert is skipped if it would bring more than this many present keys with identical hash tuples (0 = no limit)
+    bool monotone = false;      // fill mode: keys are inserted in increasing order only (every subset once), which reaches depths the free grammar cannot
 };
 
 template <class Set, class Smr>
@@ -127,7 +128,10 @@ class RehashRun: public Run
     {
         if ( !run_one( cur )) return false;
         if ( remaining == 0 ) return true;
-        for ( int k : cfg_.keys ) { cur.push_back( POp{ INS, k, 0 } ); bool ok = dfs( cur, remaining - 1 ); cur.pop_back(); if ( !ok ) return false; }
+        for ( int k : cfg_.keys ) {
+            if ( cfg_.monotone && !cur.empty() && cur.back().op == INS && k <= int( cur.back().a )) continue;
+            cur.push_back( POp{ INS, k, 0 } ); bool ok = dfs( cur, remaining - 1 ); cur.pop_back(); if ( !ok ) return false;
+        }
         for ( int k : cfg_.del_keys ) { cur.push_back( POp{ DEL, k, 0 } ); bool ok = dfs( cur, remaining - 1 ); cur.pop_back(); if ( !ok ) return false; }
         return true;
     }
@@ -156,7 +160,7 @@ void add_config( std::string const& name, RCfg cfg, int depth_quick, int depth_t
         RCfg c = cfg; c.depth = tier ? depth_thorough : depth_quick;
         for ( int k : cfg.keys ) {
             Scenario s; POp first{ INS, k, 0 };
-            s.id = name + "/h1=" + hname( cfg.h1 ) + ",h2=" + hname( cfg.h2 ) + "/ins" + std::to_string( k ) + "-depth" + std::to_string( c.depth );
+            s.id = name + "/h1=" + hname( cfg.h1 ) + ",h2=" + hname( cfg.h2 ) + "/" + ( cfg.monotone ? "fill-" : "" ) + "ins" + std::to_string( k ) + "-depth" + std::to_string( c.depth );
             s.make = [c, first, mk]() { return std::unique_ptr<Run>( new RehashRun<Set, Smr>( c, first, mk )); };
             s.tier = tier; s.bound_quick = 0; s.bound_thorough = 0; g_scen.push_back( s );
         }
@@ -193,6 +197,16 @@ void cuckoo_grid( std::string const& name, std::vector<int> probes, bool fixed_p
             std::string nm = name + "-probe" + std::to_string( probe ) + "-thr" + std::to_string( thr );
             add_config<Set, NoSmr>( nm, c, 4, 6, []( RCfg const& cf ) { return new Set( size_t( cf.params[0] ), unsigned( cf.params[1] ), unsigned( cf.params[2] )); } );
             (void) fixed_probe;
+        }
+    }
+    // fill mode: up to 12 keys inserted in increasing order (all subsets), thresholds below probe-set size - 1 included: enough colliding
+    // keys to fill both probe sets of a cell and then force a resize that has to re-place all of them
+    for ( int probe : probes ) for ( int thr = 1; thr < probe; ++thr ) {
+        for ( auto const& h : hp ) {
+            RCfg c; c.keys = { 1, 2, 3, 5, 9, 17, 33, 65, 129, 257, 513, 1025 }; c.h1 = h.first; c.h2 = h.second; c.params = { 4, probe, thr };
+            c.max_same_hash = 2 * probe; c.monotone = true;
+            std::string nm = name + "-probe" + std::to_string( probe ) + "-thr" + std::to_string( thr );
+            add_config<Set, NoSmr>( nm, c, 12, 12, []( RCfg const& cf ) { return new Set( size_t( cf.params[0] ), unsigned( cf.params[1] ), unsigned( cf.params[2] )); } );
         }
     }
 }
